@@ -36,10 +36,7 @@ func ruleR21(c *Ctx) *RuleResult {
 	p := c.p
 	r := &RuleResult{Rule: "R21", Title: "HOOKS: rebalancing is wired on every path (fix-up entry points, height signals, split/rebalance)", Floor: 25}
 	fnOf := func(tk, name string) *ssa.Function {
-		if ct := typeByKey(p, tk); ct != nil {
-			return methodsOf(p, ct)[name]
-		}
-		return nil
+		return anchorFn(p, tk, name)
 	}
 	pkgFn := func(rel, name string) *ssa.Function { return p.FuncByName(rel, name) }
 	add := func(key, clause string, fn *ssa.Function, bad []string, facts string) {
@@ -143,6 +140,19 @@ func ruleR21(c *Ctx) *RuleResult {
 		fn := fnOf(rbt, ch.fn)
 		var bad []string
 		seen := map[string]bool{}
+		// a case that is no longer a function of its own (folded into a neighbour or into a loop), or whose continuation
+		// is: the hand-over between the cases is then not visible function by function — the whole-chain skeleton below
+		// decides the same chain with every case expanded in place
+		merged := fn == nil
+		for _, nx := range ch.next {
+			if strings.Contains(nx, "Case") && fnOf(rbt, nx) == nil {
+				merged = true
+			}
+		}
+		if merged {
+			r.ok("rbt."+ch.fn, "the red-black fix-up cases hand over to each other as the algorithm requires (no path silently drops out of the chain)", "-", "this case or its continuation is not a function of its own in this tree: decided by the whole-chain skeleton (rbt.insert-skeleton / rbt.delete-skeleton)")
+			continue
+		}
 		if fn != nil {
 			for _, g := range c.GCTail(fn).GCs {
 				cs := effCallees(g)
@@ -179,6 +189,190 @@ func ruleR21(c *Ctx) *RuleResult {
 		}
 		sort.Strings(sn)
 		add("rbt."+ch.fn, "the red-black fix-up cases hand over to each other as the algorithm requires (no path silently drops out of the chain)", fn, bad, "continuations: "+strings.Join(sn, ", "))
+	}
+
+	// whole-chain skeletons: the fix-up entry point with every case expanded in place (recursion on the entry point stays a
+	// call; a loop over the node parameter is read as that recursion)
+	for _, sk := range []struct{ entry, prefix string }{{"insertCase1", "insertCase"}, {"deleteCase1", "deleteCase"}} {
+		fn := fnOf(rbt, sk.entry)
+		key := "rbt.insert-skeleton"
+		clause := "insertion fix-up, all cases expanded: a path stops without effect only knowing the parent black, recolours the node black only knowing it is the root, continues at the grandparent only knowing parent and uncle red, and rotates/recolours only knowing the parent red and the uncle not red"
+		if sk.prefix == "deleteCase" {
+			key = "rbt.delete-skeleton"
+			clause = "deletion fix-up, all cases expanded: a path stops without effect only at the root, passes the deficit to the parent only knowing parent, sibling and both nephews black, absorbs it in a red parent only knowing sibling and both nephews black, and reaches the final recolour-and-rotate step only knowing a red node in the sibling's family"
+		}
+		if fn == nil {
+			add(key, clause, nil, nil, "")
+			continue
+		}
+		prefix := sk.prefix
+		gc := tailRecForm(p, c.GCWith(fn, BuildOpts{Tag: "chain:" + prefix, Depth: 8, Inline: func(callee *ssa.Function) bool { return strings.HasPrefix(fnName(callee), prefix) }}))
+		if gc.Undecided != "" {
+			r.undecided(key, clause, p.FuncPos(fn), gc.Undecided)
+			continue
+		}
+		const parent = "(load (fa:Parent p:1))"
+		var bad []string
+		classes := map[string]int{}
+		for _, g := range gc.GCs {
+			if g.Exit.Op != "return" {
+				bad = append(bad, "the expanded chain still contains a loop that is not a walk over the node parameter: "+trunc(g.String(), 200))
+				continue
+			}
+			root := false
+			blacks, reds := map[string]bool{}, map[string]bool{}
+			for _, a := range g.Guards {
+				if subj, black, ok := colourAtom(a); ok {
+					if black {
+						blacks[subj] = true
+					} else {
+						reds[subj] = true
+					}
+				}
+				if a.Op == "==" && len(a.Args) == 2 {
+					for i := 0; i < 2; i++ {
+						if a.Args[i].String() == "#:nil" {
+							subj := noEpoch(a.Args[1-i])
+							blacks[subj] = true // a nil node counts as black
+							if subj == parent {
+								root = true
+							}
+						}
+					}
+				}
+			}
+			cs := effCallees(g)
+			self := containsStr(cs, sk.entry)
+			rot := containsStr(cs, "rotateLeft") || containsStr(cs, "rotateRight")
+			othersBlack, othersRed := 0, 0
+			for s := range blacks {
+				if s != parent {
+					othersBlack++
+				}
+			}
+			for s := range reds {
+				if s != parent {
+					othersRed++
+				}
+			}
+			for _, nm := range cs {
+				if nm != sk.entry && nm != "rotateLeft" && nm != "rotateRight" {
+					bad = append(bad, "the expanded chain calls "+nm+", which is neither a case of the chain nor a rotation")
+				}
+			}
+			show := trunc(g.String(), 300)
+			if prefix == "insertCase" {
+				switch {
+				case root:
+					classes["root"]++
+					okv := len(g.Effects) == 1 && storeToField(g.Effects[0], "color") && g.Effects[0].Args[0].Args[0].String() == "p:1" && g.Effects[0].Args[1].String() == "#:true:color"
+					if !okv {
+						bad = append(bad, "at the root the fix-up does something other than colouring the node black: "+show)
+					}
+				case blacks[parent] && !reds[parent]:
+					classes["parent-black"]++
+					if len(g.Effects) != 0 {
+						bad = append(bad, "under a black parent the fix-up changes the tree: "+show)
+					}
+				case self:
+					classes["recolour-up"]++
+					if !reds[parent] || othersRed == 0 {
+						bad = append(bad, "the fix-up continues at the grandparent without knowing parent and uncle red: "+show)
+					}
+					if rot {
+						bad = append(bad, "the fix-up rotates and continues upwards on the same path: "+show)
+					}
+					nb, nr := 0, 0
+					for _, ef := range g.Effects {
+						if storeToField(ef, "color") {
+							if ef.Args[1].String() == "#:true:color" {
+								nb++
+							} else {
+								nr++
+							}
+						}
+					}
+					if nb != 2 || nr != 1 {
+						bad = append(bad, fmt.Sprintf("continuing at the grandparent recolours %d node(s) black and %d red (parent and uncle become black, the grandparent red): %s", nb, nr, show))
+					}
+				case len(g.Effects) == 0:
+					bad = append(bad, "the fix-up stops without effect on a path that does not know the parent black: "+show)
+				default:
+					classes["restructure"]++
+					if !reds[parent] || othersBlack == 0 {
+						bad = append(bad, "the fix-up recolours/rotates without knowing the parent red and the uncle not red: "+show)
+					}
+					for _, ef := range g.Effects {
+						if _, _, isDo := effDo(ef); !isDo && !storeToField(ef, "color") {
+							bad = append(bad, "the fix-up writes something other than colours outside the rotations: "+trunc(ef.String(), 160))
+						}
+					}
+					if containsStr(cs, "rotateLeft") {
+						classes["rotL"]++
+					}
+					if containsStr(cs, "rotateRight") {
+						classes["rotR"]++
+					}
+				}
+				continue
+			}
+			// deletion
+			sig6 := false
+			for _, ef := range g.Effects {
+				if storeToField(ef, "color") {
+					if v := ef.Args[1].String(); v != "#:true:color" && v != "#:false:color" {
+						sig6 = true
+					}
+				} else if _, _, isDo := effDo(ef); !isDo {
+					bad = append(bad, "the fix-up writes something other than colours outside the rotations: "+trunc(ef.String(), 160))
+				}
+			}
+			switch {
+			case root:
+				classes["root"]++
+				if len(g.Effects) != 0 {
+					bad = append(bad, "at the root the deletion fix-up changes the tree: "+show)
+				}
+			case self:
+				classes["pass-up"]++
+				if !blacks[parent] || othersBlack < 3 {
+					bad = append(bad, "the deficit is passed to the parent without knowing parent, sibling and both nephews black: "+show)
+				}
+				if sig6 {
+					bad = append(bad, "the final recolouring step and the hand-over to the parent happen on one path: "+show)
+				}
+			case sig6:
+				classes["final"]++
+				if othersRed == 0 {
+					bad = append(bad, "the final recolour-and-rotate step is reached on a path that knows no red node in the sibling's family (an all-black family belongs to the pass-up / absorb cases): "+show)
+				}
+				if containsStr(cs, "rotateLeft") {
+					classes["rotL"]++
+				}
+				if containsStr(cs, "rotateRight") {
+					classes["rotR"]++
+				}
+			case len(g.Effects) == 0:
+				bad = append(bad, "the deletion fix-up stops without effect away from the root: "+show)
+			default:
+				classes["absorb"]++
+				if !reds[parent] || othersBlack < 3 {
+					bad = append(bad, "the deficit is absorbed without knowing the parent red and sibling and both nephews black: "+show)
+				}
+			}
+		}
+		want := []string{"root", "parent-black", "recolour-up", "restructure", "rotL", "rotR"}
+		if prefix == "deleteCase" {
+			want = []string{"root", "pass-up", "absorb", "final", "rotL", "rotR"}
+		}
+		var facts []string
+		for _, w := range want {
+			if classes[w] == 0 {
+				bad = append(bad, "the expanded chain has no "+w+" path")
+			}
+			facts = append(facts, fmt.Sprintf("%s:%d", w, classes[w]))
+		}
+		add(key, clause, fn, bad, fmt.Sprintf("%d paths with every case expanded; %s", len(gc.GCs), strings.Join(facts, " ")))
 	}
 
 	// ---------- AVL ----------
@@ -343,6 +537,9 @@ func ruleR21(c *Ctx) *RuleResult {
 							if n2, a2, ok2 := effDo(e2); ok2 && n2 == "split" && len(a2) == 2 && noEpoch(a2[1]) == owner {
 								ok = true
 							}
+						}
+						if !ok && callersSplit(c, bt, nm, ef.Args[0].Args[0]) {
+							ok = true // the overflow check of the grown node is the caller's next step at every call site
 						}
 						if !ok {
 							bad = append(bad, nm+" grows the entries of a node without handing that node to split: "+trunc(owner, 120))
@@ -614,6 +811,9 @@ func ruleR21b(c *Ctx) *RuleResult {
 			if fn.Pkg == nil || p.RelPkg(fn.Pkg.Pkg.Path()) != "trees/avltree" {
 				continue
 			}
+			if fn.Parent() == nil && !p.KnownFunc(fn) {
+				continue // a helper the pinned tree does not know is judged where it is expanded, with its actual arguments
+			}
 			if fnName(fn) == "rotate" {
 				anchor = fn
 			}
@@ -744,4 +944,75 @@ func ruleR21b(c *Ctx) *RuleResult {
 		add("btree.occupancy-defs", "the B-tree occupancy bounds are the documented ones: at most m children / m-1 keys, at least ceil(m/2) children / ceil(m/2)-1 keys; a node is split exactly when it holds more than m-1 keys", anchor, bad, "maxChildren = m, minChildren = ceil(m/2), maxEntries = m-1, minEntries = ceil(m/2)-1, shouldSplit ⇔ len > m-1")
 	}
 	return r
+}
+
+// callersSplit: helper nm grew the entries of `node` (a term over nm's parameters) without checking it for overflow
+// itself. True when nm has call sites among the methods of tk and every one of them goes on to split exactly that node
+// (the mutual recursion split → splitNonRoot → split(parent) written as a loop in split).
+func callersSplit(c *Ctx, tk, nm string, node *Term) bool {
+	ct := typeByKey(c.p, tk)
+	if ct == nil {
+		return false
+	}
+	sites := 0
+	for _, caller := range methodsOf(c.p, ct) {
+		if fnName(caller) == nm || caller.Blocks == nil {
+			continue
+		}
+		gc := c.GCTail(caller)
+		if gc.Undecided != "" {
+			continue
+		}
+		for _, g := range gc.GCs {
+			for i, ef := range g.Effects {
+				n1, a1, ok := effDo(ef)
+				if !ok || n1 != nm {
+					continue
+				}
+				sites++
+				want := noEpoch(rewriteTerm(node, func(t *Term) *Term {
+					if t.Op == "p" {
+						if j := atoiOr(t.Leaf, -1); j >= 0 && j < len(a1) {
+							return a1[j]
+						}
+					}
+					return nil
+				}))
+				follow := false
+				for _, e2 := range g.Effects[i+1:] {
+					if n2, a2, ok2 := effDo(e2); ok2 && n2 == "split" && len(a2) == 2 && noEpoch(a2[1]) == want {
+						follow = true
+					}
+				}
+				if !follow {
+					return false
+				}
+			}
+		}
+	}
+	return sites > 0
+}
+
+// colourAtom: a guard that tests a node's colour — nodeColor(X) or X.color compared with black/red.
+func colourAtom(a *Term) (subj string, black bool, ok bool) {
+	if (a.Op != "==" && a.Op != "!=") || len(a.Args) != 2 {
+		return "", false, false
+	}
+	for i := 0; i < 2; i++ {
+		k := a.Args[i].String()
+		if k != "#:true:color" && k != "#:false:color" {
+			continue
+		}
+		x := a.Args[1-i]
+		switch {
+		case x.Op == "call" && strings.HasSuffix(x.Leaf, ".nodeColor") && len(x.Args) >= 1:
+			subj = noEpoch(x.Args[len(x.Args)-1])
+		case x.Op == "load" && len(x.Args) == 1 && x.Args[0].Op == "fa" && x.Args[0].Leaf == "color":
+			subj = noEpoch(x.Args[0].Args[0])
+		default:
+			return "", false, false
+		}
+		return subj, (k == "#:true:color") == (a.Op == "=="), true
+	}
+	return "", false, false
 }
